@@ -351,13 +351,18 @@ func injectFile(operations []*HTTPOperation, file graphql.Upload, paths []string
 			parts = parts[1:]
 		}
 
-		if parts[0] != "variables" {
+		if len(parts) == 0 || parts[0] != "variables" {
 			return errors.New("file locator doesn't have variables in it: " + path)
 		}
 
 		const minPathParts = 2
 		if len(parts) < minPathParts {
 			return errors.New("invalid number of parts in path: " + path)
+		}
+
+		// the batch index might not designate one of the operations
+		if idx < 0 || idx >= len(operations) || operations[idx] == nil {
+			return fmt.Errorf("operation index %d out of bound %d", idx, len(operations))
 		}
 
 		variables := operations[idx].Variables
@@ -389,7 +394,7 @@ func injectFile(operations []*HTTPOperation, file graphql.Upload, paths []string
 				}
 
 				// index might not be within the bounds
-				if index >= len(v) {
+				if index < 0 || index >= len(v) {
 					return fmt.Errorf("file index %d out of bound %d", index, len(v))
 				}
 				fileVal := v[index]
